@@ -40,6 +40,7 @@ const (
 	BodyStream
 	BodyEmpty
 	BodySeekCloser // a seekable body whose Close really invalidates it (like *os.File)
+	BodySeekFails  // an io.ReadSeeker + io.Closer whose Seek always fails (a pipe, a closed file): no attempt can be prepared (C19 scenarios only)
 )
 
 // Caller context kinds for adapters.
@@ -71,9 +72,10 @@ type ServerStep struct {
 	BodySize   int  `json:"body_size,omitempty"`
 	Chunks     int  `json:"chunks,omitempty"`
 	ChunkDelay D    `json:"chunk_delay,omitempty"`
-	Code       int  `json:"code,omitempty"`      // gRPC status code (0 = OK)
-	PlainErr   bool `json:"plain_err,omitempty"` // gRPC: a non-status error
-	Wrapped    bool `json:"wrapped,omitempty"`   // gRPC: the status error arrives wrapped (fmt.Errorf with %w), as a handler or an inner interceptor annotating its errors returns it
+	Code       int  `json:"code,omitempty"`        // gRPC status code (0 = OK)
+	PlainErr   bool `json:"plain_err,omitempty"`   // gRPC: a non-status error
+	LateUpload bool `json:"late_upload,omitempty"` // HTTP: the server answers before the request body has been uploaded; the transport keeps reading the body after RoundTrip returned, as net/http's may
+	Wrapped    bool `json:"wrapped,omitempty"`     // gRPC: the status error arrives wrapped (fmt.Errorf with %w), as a handler or an inner interceptor annotating its errors returns it
 }
 
 type AdapterSpec struct {
@@ -93,6 +95,7 @@ type AdapterSpec struct {
 	UploadDelay D               `json:"upload_delay,omitempty"` // the transport takes this long per piece of the request body (slow upload)
 	CancelAt    D               `json:"cancel_at,omitempty"`    // cancel the cancellable caller context this long after the call started (0 = never)
 	Repeat      int             `json:"repeat,omitempty"`
+	Redo        bool            `json:"redo,omitempty"` // HTTP with a body that is an io.ReadSeeker and an io.Closer itself (http.NewRequest leaves it unwrapped, the adapter rewinds it per attempt): the same request is executed a second time after the first call returned
 }
 
 // Adapter event sub kinds (Event.Kind == EvAdapter, L = sub kind).
@@ -103,6 +106,8 @@ const (
 	AdBodyRead              // caller read the returned body: A = bytes read, B = expected bytes, Err
 	AdBodyClose             // Close called on response body A (attempt index)
 	AdCallerCancel
+	AdRedo     // the same request object is about to be executed a second time
+	AdLateBody // the upload that continued after the response was returned has ended (A attempt, B problem mask)
 )
 
 const EvAdapter = 100
@@ -326,7 +331,8 @@ func (t *simTransport) RoundTrip(req *http.Request) (*http.Response, error) {
 		prob |= PHeader
 	}
 	var got []byte
-	if req.Body != nil {
+	late := req.Body != nil && w.step(n).LateUpload && (w.spec.Body == BodyBuffer || w.spec.Body == BodyBytesReader || w.spec.Body == BodyStream)
+	upload := func(first bool) (cut bool) {
 		// like a real transport, the body is written out piecewise while other attempts may run
 		chunk := len(w.body)/4 + 1
 		buf := make([]byte, chunk)
@@ -336,17 +342,37 @@ func (t *simTransport) RoundTrip(req *http.Request) (*http.Response, error) {
 			if rerr != nil || len(got) > len(w.body)+chunk {
 				break
 			}
+			if first {
+				return false // the rest follows after the response
+			}
 			if w.spec.UploadDelay > 0 {
 				if waitOrCancel(w.spec.UploadDelay, req.Context().Done(), "http.body.write") {
-					break
+					return true
 				}
 			} else {
 				simrt.Yield("http.body.write")
 			}
 		}
 		req.Body.Close()
+		return false
 	}
-	if !bytes.Equal(got, w.body) {
+	if req.Body != nil {
+		upload(late)
+	}
+	if late {
+		// the server answers at once; the upload goes on in the background until it is complete or the attempt's context ends
+		body := req.Body
+		ctx := req.Context()
+		simrt.Go("sim.transport.late-upload", func() {
+			cut := upload(false)
+			var p int64
+			if !cut && ctx.Err() == nil && !bytes.Equal(got, w.body) {
+				p = PBody
+			}
+			w.log.add(Event{Kind: EvAdapter, L: AdLateBody, A: int64(n), B: p, Str: fmt.Sprintf("body: got %d bytes, want %d", len(got), len(w.body))})
+			_ = body
+		})
+	} else if !bytes.Equal(got, w.body) {
 		prob |= PBody
 		details = append(details, fmt.Sprintf("body: got %d bytes, want %d", len(got), len(w.body)))
 	}
@@ -478,6 +504,9 @@ func (w *adapterWorld) runHTTP() {
 	case BodySeekCloser:
 		w.body = patternBytes(spec.BodySize)
 		body = &closableSeeker{r: bytes.NewReader(w.body)}
+	case BodySeekFails:
+		w.body = patternBytes(spec.BodySize)
+		body = &closableSeeker{r: bytes.NewReader(w.body), closed: true}
 	}
 	w.setupContexts()
 	req, err := http.NewRequestWithContext(w.reqCtx, spec.Method, "http://sim.test/path?q=1", body)
@@ -493,19 +522,37 @@ func (w *adapterWorld) runHTTP() {
 	tr := &simTransport{w}
 	var resp *http.Response
 	viaPolicies := spec.ViaPolicies && w.execCtx == nil
+	var call func() (*http.Response, error)
 	switch {
 	case spec.ViaRequest && viaPolicies:
-		resp, err = failsafehttp.NewRequest(req, &http.Client{Transport: tr}, pols...).Do()
+		fr := failsafehttp.NewRequest(req, &http.Client{Transport: tr}, pols...)
+		call = fr.Do
 	case spec.ViaRequest:
-		resp, err = failsafehttp.NewRequestWithExecutor(req, &http.Client{Transport: tr}, ex).Do()
+		fr := failsafehttp.NewRequestWithExecutor(req, &http.Client{Transport: tr}, ex)
+		call = fr.Do
 	case spec.ViaClient && viaPolicies:
-		resp, err = (&http.Client{Transport: failsafehttp.NewRoundTripper(tr, pols...)}).Do(req)
+		cl := &http.Client{Transport: failsafehttp.NewRoundTripper(tr, pols...)}
+		call = func() (*http.Response, error) { return cl.Do(req) }
 	case spec.ViaClient:
-		resp, err = (&http.Client{Transport: failsafehttp.NewRoundTripperWithExecutor(tr, ex)}).Do(req)
+		cl := &http.Client{Transport: failsafehttp.NewRoundTripperWithExecutor(tr, ex)}
+		call = func() (*http.Response, error) { return cl.Do(req) }
 	case viaPolicies:
-		resp, err = failsafehttp.NewRoundTripper(tr, pols...).RoundTrip(req)
+		rt := failsafehttp.NewRoundTripper(tr, pols...)
+		call = func() (*http.Response, error) { return rt.RoundTrip(req) }
 	default:
-		resp, err = failsafehttp.NewRoundTripperWithExecutor(tr, ex).RoundTrip(req)
+		rt := failsafehttp.NewRoundTripperWithExecutor(tr, ex)
+		call = func() (*http.Response, error) { return rt.RoundTrip(req) }
+	}
+	resp, err = call()
+	if spec.Redo && spec.Body == BodySeekCloser && !spec.ViaClient {
+		// once the first call is over the same request object is executed again: its seekable body is replayed from the start
+		defer func() {
+			w.log.add(Event{Kind: EvAdapter, L: AdRedo})
+			if r2, _ := call(); r2 != nil && r2.Body != nil {
+				io.Copy(io.Discard, r2.Body)
+				r2.Body.Close()
+			}
+		}()
 	}
 	e := Event{Kind: EvAdapter, L: AdReturn, Err: err, A: -1}
 	if resp != nil {
